@@ -1012,6 +1012,9 @@ fn final_checks(spec: &RunSpec) {
     if x.lin_ops.len() <= 60 {
         let r = lin::check(&x.lin_ops);
         sim::count(E_LIN_STATES, r.states);
+        if !r.ok && sim::checking("C05") {
+            sim::report("C05", "registry-differs-from-model", &format!("under concurrent mutators no linearisation of the calls against the per-signal ordered-multiset model explains their results and what the deliveries ran: {}", r.explain), false);
+        }
         if !r.ok {
             sim::report("C02", "not-linearisable", &format!("no linearisation of the mutator calls explains what the deliveries ran: {}", r.explain), false);
         }
